@@ -106,6 +106,8 @@ func c06(c *Ctx) {
 	c19R6(c)
 	// shared: no factory error is discarded — a refused delete does not free the slot (C07.R4)
 	c07R4(c)
+	ruleShadow(c, "C06.R7", "the whole module")
+	ruleAddrFromSlice(c, "C06.R9", "the whole module (the primary address of an interface is recognised by comparing addresses)")
 }
 
 // R1: cap check counts in-flight requests, in normal form, before every enqueue.
